@@ -603,6 +603,9 @@ class FixedWidthBinning(BinningBase):
             if np.size(values) == 0:
                 return None  # Nothing to make room for
             min_, max_ = np.min(values), np.max(values)
+            if np.isinf(min_) or np.isinf(max_):
+                # Refuse before the bins are extended for the other end of the batch
+                raise OverflowError("Cannot adapt the bins to an infinite value.")
             result = self._force_bin_existence_single(min_)
             result2 = self._force_bin_existence_single(
                 max_, includes_right_edge=includes_right_edge
